@@ -1,3 +1,87 @@
-(* C20 — statements are added when the corresponding facts file lands *)
-From SV Require Import Bytes Lexer Tables ArgCheck Machine Printer GenTables.
-Theorem C20_placeholder : True. Proof. exact I. Qed.
+(* C20 — registered custom commands are parsed and printed according to their definition.
+
+   The model (ArgCheck / Machine / Printer) is parametric in the command tables, so a registered
+   command is just one more table entry ([register], the model of commands.add_commands).
+   Proved (sieve/ArgCheckFacts.v, sieve/RegisterFacts.v), for EVERY definition of the documented
+   shape ([wf_def]: optional tag slots — with or without a typed parameter, value set, valid_for —
+   followed by at least one required positional) and every table:
+     - the parser's argument interpreter accepts exactly the uses the definition allows and records
+       the arguments under the defined names (C20_argcheck_generic);
+     - the command is found under its name in any letter case, other names are unaffected, names
+       that are not registered remain unknown (C20_lookup_registered, C20_lookup_other, C20_unregistered_unknown), and its extension is demanded
+       (C20_extension_gate);
+     - registering a well-formed definition keeps the tables well-formed, so C07's invariant
+       applies to scripts using it (C20_register_wf).
+   Serialisation re-parsing to the same tree is exercised on the implementation and on the model
+   (correspondence with definitions registered at run time), not proved. *)
+From Coq Require Import String.
+From Coq Require Import List NArith Bool Arith.
+From SV Require Import Bytes Lexer Tables ArgCheck ArgSpec Machine Printer GenTables.
+Import ListNotations.
+Local Open Scope nat_scope.
+From SV Require Import ArgCheckFacts GateFacts RegisterFacts.
+
+(* generic in the definition: complete / incomplete / rejected exactly as [legal] says, values under the defined names *)
+Theorem C20_argcheck_generic :
+  forall (d : cmddef) (a : attach) (loaded : list bytes) (args : list argument),
+  wf_def d = true ->
+  fixed_arity d = true ->
+  Forall (fun x : argument => arg_shape_ok x = true) args -> corr_stmt d a loaded args.
+Proof. exact ArgCheckFacts.argcheck_correct_gen. Qed.
+Print Assumptions C20_argcheck_generic.
+
+(* the side condition is necessary *)
+Theorem C20_fixed_arity_needed :
+  forall (d : cmddef) (loaded : list bytes),
+  wf_def d = true -> fixed_arity d = false -> ~ corr_stmt d AtTop loaded [].
+Proof. exact ArgCheckFacts.fixed_arity_necessary. Qed.
+Print Assumptions C20_fixed_arity_needed.
+
+(* a registered command is found, in any letter case *)
+Theorem C20_lookup_registered :
+  forall (T : tables) (key : bytes) (d : cmddef) (name : bytes),
+  lower name = key -> lookup_cmd (register key d T) (lower name) = Some d.
+Proof. exact RegisterFacts.lookup_registered. Qed.
+Print Assumptions C20_lookup_registered.
+
+(* other names are unaffected by a registration *)
+Theorem C20_lookup_other :
+  forall (T : tables) (key : bytes) (d : cmddef) (k : bytes),
+  k <> key -> lookup_cmd (register key d T) k = lookup_cmd T k.
+Proof. exact RegisterFacts.lookup_other. Qed.
+Print Assumptions C20_lookup_other.
+
+(* unregistered names remain unknown commands *)
+Theorem C20_unregistered_unknown :
+  forall (T : tables) (key : bytes) (d : cmddef) (loaded : list bytes) (name : bytes),
+  lower name <> key ->
+  lookup_cmd T (lower name) = None ->
+  get_command_instance (register key d T) loaded name = inr (EUnknownCommand name).
+Proof. exact RegisterFacts.unregistered_unknown. Qed.
+Print Assumptions C20_unregistered_unknown.
+
+(* a registered command without extension is instantiated *)
+Theorem C20_no_extension :
+  forall (T : tables) (key : bytes) (d : cmddef) (loaded : list bytes) (name : bytes),
+  lower name = key ->
+  d_extension d = None -> get_command_instance (register key d T) loaded name = inl d.
+Proof. exact RegisterFacts.registered_no_extension. Qed.
+Print Assumptions C20_no_extension.
+
+(* a registered command with an extension is refused with extension-not-loaded until it is required *)
+Theorem C20_extension_gate :
+  forall (T : tables) (key : bytes) (d : cmddef) (loaded : list bytes) 
+    (name : bytes) (c : N) (e : list N),
+  lower name = key ->
+  d_extension d = Some (c :: e) ->
+  get_command_instance (register key d T) loaded name =
+  (if mem (c :: e) loaded then inl d else inr (EExtNotLoaded (c :: e))).
+Proof. exact RegisterFacts.registered_extension_gate. Qed.
+Print Assumptions C20_extension_gate.
+
+(* registration preserves table well-formedness (C07's invariant applies) *)
+Theorem C20_register_wf :
+  forall (T : tables) (key : bytes) (d : cmddef),
+  wf_tables T = true -> def_wf d = true -> wf_tables (register key d T) = true.
+Proof. exact RegisterFacts.register_wf. Qed.
+Print Assumptions C20_register_wf.
